@@ -1,5 +1,9 @@
-(* C11 — lazy update: the property theorems of the hand model EFModel.C11_Lazy, restated for
-   the instance used by the correspondence run (parameters and law as abstract types). *)
+(* C11 — lazy update: the property theorems of the hand model EFModel.C11_Lazy.
+   An operation list may contain assignments [SetParam alias p] with any aliasing flag (the
+   assigned object is / is not the object already stored, e.g. a user array edited in place and
+   re-assigned): the next read always returns the law of the CURRENT parameter contents.
+   The translator checks on every run that `_Parameter.__set__` reaches `Need_Update()` without
+   any data-dependent guard, which is what the model's [step] assumes. *)
 From Coq Require Import List.
 From EFModel Require Import C11_Lazy.
 
@@ -8,4 +12,16 @@ Theorem C11_lazy_update : forall (Prm Law : Type) (behavior : Prm -> Law) (p0 : 
   = Some (behavior (last_prm Prm p0 ops)).
 Proof. intros. apply lazy_update. Qed.
 
+(* an "unchanged object" shortcut in the setter breaks the property as soon as two parameter
+   contents give different laws *)
+Theorem C11_guarded_setter_refuted : forall (Prm Law : Type) (behavior : Prm -> Law) (p q : Prm),
+  behavior p <> behavior q ->
+  exists ops, snd (step_guarded Prm Law behavior (run_guarded Prm Law behavior (init Prm Law p) ops) (Read Prm))
+              <> Some (behavior (last_prm Prm p ops)).
+Proof. intros. now apply guarded_shortcut_refuted with (q := q). Qed.
+
+Example guarded_refuted_nonvacuous : (fun x : nat => x) 1 <> (fun x : nat => x) 2.
+Proof. discriminate. Qed.
+
 Print Assumptions C11_lazy_update.
+Print Assumptions C11_guarded_setter_refuted.
